@@ -139,6 +139,8 @@ def _case_worker_inner(case):
                 meta["attr"] = attr_snapshot(sd, nm)
             if case.get("pipe"):
                 meta["pipe"] = [json.loads(json.dumps(x)) for x in H._PIPE]
+            if case.get("sym"):
+                meta["sym"] = [json.loads(json.dumps(x)) for x in H._SYM]
             real.append((H.sort_ids(r), dump_real(sd), meta))
         out = m.run()
         # reference (always with an unlimited configuration)
@@ -179,6 +181,14 @@ def _case_worker_inner(case):
                 for rec in (meta or {}).get("pipe", []):
                     for kind, cmd, want in pipe_checks(rec, nm):
                         pipe_index.append((idx, rec["node"], kind, m2.add(cmd), want))
+        sym_index = []
+        if case.get("sym"):
+            for idx, (_, _, meta) in enumerate(real):
+                for rec in (meta or {}).get("sym", []):
+                    if "error" in rec:
+                        sym_index.append((idx, rec, None)); continue
+                    piv = sp2s({**rec["pivot"], **rec["space"]}, nm)
+                    sym_index.append((idx, rec, m2.add(f"reach {piv}")))
         gidx = None
         if case.get("global_seeds") and real[-1][2] is not None:
             allseeds = [x for item in real[-1][2].get("attr", []) if item["exp"] for x in item.get("seeds", [])]
@@ -187,6 +197,21 @@ def _case_worker_inner(case):
         ref_out = m2.run()
         global_verdict = None if gidx is None else ref_out[gidx]
         pipe_results = [(idx, node, kind, ref_out[ci], want) for idx, node, kind, ci, want in pipe_index]
+        sym_results = []
+        for idx, rec, ci in sym_index:
+            if ci is None:
+                sym_results.append((idx, "recording failed: " + rec["error"])); continue
+            reach = set(parse_states(ref_out[ci]))
+            av = {sp2s({**a, **rec["space"]}, nm) for a in rec["avoid"]}
+            if rec["result"] is None:
+                if not (reach & av):
+                    sym_results.append((idx, f"node {rec['node']}: symbolic_attractor_test(pivot={rec['pivot']}) returned None but no avoid state is reachable from the pivot"))
+            else:
+                got = {sp2s({**a, **rec["space"]}, nm) for a in rec["result"]}
+                if reach & av:
+                    sym_results.append((idx, f"node {rec['node']}: symbolic_attractor_test(pivot={rec['pivot']}) returned a set although the avoid state {sorted(reach & av)[0]} is reachable"))
+                elif got != reach:
+                    sym_results.append((idx, f"node {rec['node']}: symbolic_attractor_test(pivot={rec['pivot']}) returned {len(got)} states, the reachable set has {len(reach)}"))
         verdicts = [(idx, nid, kind, ("notfullstate" if ci is None else ref_out[ci])) for idx, nid, kind, ci in chk_index]
         steps = []
         for idx, ((r, d, meta), line) in enumerate(zip(real, out)):
@@ -199,7 +224,7 @@ def _case_worker_inner(case):
                 mr = H.sort_ids(mr[len("result="):])
             steps.append({"real_result": r, "model_result": mr, "real": d, "model": md, "meta": meta})
         return {"case": case, "steps": steps, "ref_full": ref_out[1].split(" ", 1)[1], "mintraps": parse_spaces(ref_out[2]),
-                "root": ref_out[3], "attractors": parse_attractors(ref_out[4]), "verdicts": verdicts, "global_verdict": global_verdict, "pipe_results": pipe_results if case.get("pipe") else [], "n": n, "error": None}
+                "root": ref_out[3], "attractors": parse_attractors(ref_out[4]), "verdicts": verdicts, "global_verdict": global_verdict, "pipe_results": pipe_results if case.get("pipe") else [], "sym_results": sym_results, "sym_calls": len(sym_index), "n": n, "error": None}
     except CaseTimeout:
         raise
     except Exception as e:  # harness error: reported, never silently dropped
